@@ -191,7 +191,7 @@ func init() {
 	})
 	p.Strata = append(p.Strata, mon.Stratum{
 		Name: "random-long-scalar-arrays",
-		N:    qt(30000, 1000000),
+		N:    qt(30000, 2000000),
 		Run: func(c *mon.Ctx, i int) {
 			alpha := [][]any{{1.0, 2.0}, {1.0, 2.0, 3.0}, {"a", "b", 1.0, true}, {0.0, 1.0, 2.0, 3.0, 4.0, 5.0}}[i%4]
 			prof := gen.PTiny.With(func(p *gen.Profile) { p.Scalars = alpha })
@@ -207,7 +207,7 @@ func init() {
 	})
 	p.Strata = append(p.Strata, mon.Stratum{
 		Name: "long-arrays-localised-edits",
-		N:    qt(1500, 30000),
+		N:    qt(1500, 60000),
 		Run: func(c *mon.Ctx, i int) {
 			// arrays of 100-600 elements with a few edits near the head, the tail and in between
 			k := []int{3, 8, 40, 1000}[i%4]
@@ -247,7 +247,7 @@ func init() {
 	})
 	p.Strata = append(p.Strata, mon.Stratum{
 		Name: "mixed-containers-aligned",
-		N:    qt(30000, 600000),
+		N:    qt(30000, 1200000),
 		Run: func(c *mon.Ctx, i int) {
 			prof := gen.PTiny
 			n := c.R.Range(1, 10)
@@ -274,7 +274,7 @@ func init() {
 	})
 	p.Strata = append(p.Strata, mon.Stratum{
 		Name: "random-nested-context",
-		N:    qt(30000, 600000),
+		N:    qt(30000, 1200000),
 		Run: func(c *mon.Ctx, i int) {
 			prof := []gen.Profile{gen.PDefault, gen.PTiny, gen.PDeep, gen.PNulls}[i%4]
 			a, b := gen.Pair(c.R, prof)
